@@ -1,1 +1,484 @@
-//! iset — shared helper (see DESIGN.md section 2); filled in by the module that owns it.
+//! iset — independent reference model: normalised sets of integers kept as
+//! closed intervals. Owned by C03; also used by C01 / C02 for "resources as
+//! sets" oracles. No code is shared with rpki-rs (`chain.rs`).
+//!
+//! # API
+//!
+//! ```text
+//! trait Int                    implemented for u8, u32, u128 (ZERO, MAX, BITS, succ, pred, to_u128, from_u128)
+//!
+//! ISet<T>                      a set of T; invariant: `ranges()` is ascending, pairwise disjoint,
+//!                              non-adjacent, every (lo, hi) has lo <= hi  (= the canonical form)
+//!   ISet::empty() / full()
+//!   ISet::from_ranges(iter)    any order, overlaps/adjacency/duplicates allowed; a pair with
+//!                              lo > hi denotes the empty set and is ignored
+//!   ISet::from_sorted_unchecked(vec)   for callers that already hold a canonical list
+//!   .ranges() -> &[(T, T)]     the canonical list
+//!   .is_empty() .is_full()
+//!   .contains(x)               membership of one item
+//!   .contains_range(lo, hi)    [lo, hi] ⊆ self        (lo <= hi required)
+//!   .intersects_range(lo, hi)  [lo, hi] ∩ self ≠ ∅    (lo <= hi required)
+//!   .is_subset(&other)         self ⊆ other
+//!   .union(&o) .intersection(&o) .difference(&o) .complement()
+//!   .count() -> Option<u128>   number of items; None only for the full u128 set (2^128)
+//!   .items(limit) -> Option<Vec<T>>   all items ascending if there are at most `limit`
+//!
+//! check_canonical(&[(T, T)]) -> Result<(), NonCanonical>
+//!                              is a foreign list in canonical form? reports the first
+//!                              violation (Inverted / Unsorted / Overlap / Adjacent, index)
+//! prefix_range(addr, len)      (first, last) item of the prefix addr/len in a T::BITS-bit space
+//! range_prefix_len(lo, hi)     Some(len) iff [lo, hi] is exactly one prefix
+//! range_to_prefixes(lo, hi)    minimal ascending list of (addr, len) whose union is [lo, hi]
+//!
+//! v4_embed(lo, hi) / v4_embed_set(&ISet<u32>)   IPv4 -> rpki-rs `Addr` space (address in the upper
+//!                              32 bits; a block's last address has the lower 96 bits set)
+//! v4_project(lo, hi)           inverse; None if the pair is not 2^96-aligned
+//! ```
+//!
+//! Everything is deterministic and allocation is proportional to the number
+//! of intervals.
+
+use std::fmt::Debug;
+
+//------------ Int -----------------------------------------------------------
+
+pub trait Int: Copy + Ord + Eq + Debug + std::hash::Hash {
+    const ZERO: Self;
+    const MAX: Self;
+    const BITS: u32;
+    fn succ(self) -> Option<Self>;
+    fn pred(self) -> Option<Self>;
+    fn to_u128(self) -> u128;
+    /// Truncating conversion.
+    fn from_u128(v: u128) -> Self;
+}
+
+macro_rules! int_impl {
+    ($t:ty) => {
+        impl Int for $t {
+            const ZERO: Self = 0;
+            const MAX: Self = <$t>::MAX;
+            const BITS: u32 = <$t>::BITS;
+            fn succ(self) -> Option<Self> {
+                self.checked_add(1)
+            }
+            fn pred(self) -> Option<Self> {
+                self.checked_sub(1)
+            }
+            fn to_u128(self) -> u128 {
+                self as u128
+            }
+            fn from_u128(v: u128) -> Self {
+                v as $t
+            }
+        }
+    };
+}
+int_impl!(u8);
+int_impl!(u32);
+int_impl!(u128);
+
+//------------ ISet ----------------------------------------------------------
+
+#[derive(Clone, Debug, PartialEq, Eq, Hash, Default)]
+pub struct ISet<T: Int> {
+    r: Vec<(T, T)>,
+}
+
+impl<T: Int> ISet<T> {
+    pub fn empty() -> Self {
+        ISet { r: Vec::new() }
+    }
+
+    pub fn full() -> Self {
+        ISet { r: vec![(T::ZERO, T::MAX)] }
+    }
+
+    pub fn from_ranges<I: IntoIterator<Item = (T, T)>>(it: I) -> Self {
+        let mut v: Vec<(T, T)> = it.into_iter().filter(|(lo, hi)| lo <= hi).collect();
+        v.sort();
+        let mut r: Vec<(T, T)> = Vec::with_capacity(v.len());
+        for (lo, hi) in v {
+            match r.last_mut() {
+                // lo >= last.lo by sorting; merge if lo <= last.hi + 1
+                Some(last) if last.1 >= lo || last.1.succ() == Some(lo) => {
+                    if hi > last.1 {
+                        last.1 = hi;
+                    }
+                }
+                _ => r.push((lo, hi)),
+            }
+        }
+        ISet { r }
+    }
+
+    /// The caller guarantees the canonical form (checked in debug builds).
+    pub fn from_sorted_unchecked(r: Vec<(T, T)>) -> Self {
+        debug_assert!(check_canonical(&r).is_ok());
+        ISet { r }
+    }
+
+    pub fn ranges(&self) -> &[(T, T)] {
+        &self.r
+    }
+
+    pub fn is_empty(&self) -> bool {
+        self.r.is_empty()
+    }
+
+    pub fn is_full(&self) -> bool {
+        self.r.len() == 1 && self.r[0] == (T::ZERO, T::MAX)
+    }
+
+    /// Index of the interval with the largest lower bound <= x.
+    fn locate(&self, x: T) -> Option<usize> {
+        let n = self.r.partition_point(|&(lo, _)| lo <= x);
+        n.checked_sub(1)
+    }
+
+    pub fn contains(&self, x: T) -> bool {
+        match self.locate(x) {
+            Some(i) => x <= self.r[i].1,
+            None => false,
+        }
+    }
+
+    pub fn contains_range(&self, lo: T, hi: T) -> bool {
+        assert!(lo <= hi, "contains_range: lo > hi");
+        match self.locate(lo) {
+            Some(i) => hi <= self.r[i].1,
+            None => false,
+        }
+    }
+
+    pub fn intersects_range(&self, lo: T, hi: T) -> bool {
+        assert!(lo <= hi, "intersects_range: lo > hi");
+        // some interval starts inside [lo, hi], or the one starting before lo reaches lo
+        let first_after = self.r.partition_point(|&(l, _)| l < lo);
+        if first_after < self.r.len() && self.r[first_after].0 <= hi {
+            return true;
+        }
+        first_after > 0 && self.r[first_after - 1].1 >= lo
+    }
+
+    pub fn is_subset(&self, other: &Self) -> bool {
+        self.r.iter().all(|&(lo, hi)| other.contains_range(lo, hi))
+    }
+
+    pub fn union(&self, o: &Self) -> Self {
+        Self::from_ranges(self.r.iter().chain(o.r.iter()).copied())
+    }
+
+    pub fn complement(&self) -> Self {
+        let mut out = Vec::with_capacity(self.r.len() + 1);
+        let mut cur = Some(T::ZERO);
+        for &(lo, hi) in &self.r {
+            if let Some(c) = cur {
+                if c < lo {
+                    // lo > c >= 0, so pred exists
+                    out.push((c, lo.pred().unwrap()));
+                }
+            }
+            cur = hi.succ();
+        }
+        if let Some(c) = cur {
+            out.push((c, T::MAX));
+        }
+        ISet { r: out }
+    }
+
+    pub fn intersection(&self, o: &Self) -> Self {
+        let (a, b) = (&self.r, &o.r);
+        let (mut i, mut j) = (0, 0);
+        let mut out = Vec::new();
+        while i < a.len() && j < b.len() {
+            let lo = a[i].0.max(b[j].0);
+            let hi = a[i].1.min(b[j].1);
+            if lo <= hi {
+                out.push((lo, hi));
+            }
+            if a[i].1 < b[j].1 {
+                i += 1;
+            } else {
+                j += 1;
+            }
+        }
+        // pieces are separated by a gap of one operand, hence already canonical;
+        // normalise anyway so the invariant does not rest on that argument
+        Self::from_ranges(out)
+    }
+
+    pub fn difference(&self, o: &Self) -> Self {
+        self.intersection(&o.complement())
+    }
+
+    pub fn count(&self) -> Option<u128> {
+        let mut n: u128 = 0;
+        for &(lo, hi) in &self.r {
+            let span = hi.to_u128() - lo.to_u128(); // size - 1
+            n = n.checked_add(span)?.checked_add(1)?;
+        }
+        Some(n)
+    }
+
+    pub fn items(&self, limit: usize) -> Option<Vec<T>> {
+        match self.count() {
+            Some(n) if n <= limit as u128 => {}
+            _ => return None,
+        }
+        let mut out = Vec::new();
+        for &(lo, hi) in &self.r {
+            let mut x = lo;
+            loop {
+                out.push(x);
+                if x == hi {
+                    break;
+                }
+                x = x.succ().unwrap();
+            }
+        }
+        Some(out)
+    }
+}
+
+//------------ canonical form of foreign lists ---------------------------------
+
+#[derive(Clone, Copy, Debug, PartialEq, Eq)]
+pub enum NonCanonical {
+    /// block `i` has lo > hi
+    Inverted(usize),
+    /// block `i` starts before block `i-1` starts (or at the same item)
+    Unsorted(usize),
+    /// block `i` starts inside block `i-1`
+    Overlap(usize),
+    /// block `i` starts right after block `i-1` ends
+    Adjacent(usize),
+}
+
+pub fn check_canonical<T: Int>(r: &[(T, T)]) -> Result<(), NonCanonical> {
+    for (i, &(lo, hi)) in r.iter().enumerate() {
+        if lo > hi {
+            return Err(NonCanonical::Inverted(i));
+        }
+    }
+    for i in 1..r.len() {
+        let (plo, phi) = r[i - 1];
+        let (lo, _) = r[i];
+        if lo <= plo {
+            return Err(NonCanonical::Unsorted(i));
+        }
+        if lo <= phi {
+            return Err(NonCanonical::Overlap(i));
+        }
+        if phi.succ() == Some(lo) {
+            return Err(NonCanonical::Adjacent(i));
+        }
+    }
+    Ok(())
+}
+
+//------------ prefixes ----------------------------------------------------------
+
+fn low_mask(host_bits: u32) -> u128 {
+    if host_bits >= 128 {
+        u128::MAX
+    } else {
+        (1u128 << host_bits) - 1
+    }
+}
+
+/// First and last item of prefix `addr/len` (host bits of `addr` are ignored).
+pub fn prefix_range<T: Int>(addr: T, len: u8) -> (T, T) {
+    assert!(len as u32 <= T::BITS, "prefix length exceeds the address width");
+    let m = low_mask(T::BITS - len as u32);
+    let a = addr.to_u128();
+    (T::from_u128(a & !m), T::from_u128(a | m))
+}
+
+/// `Some(len)` iff `[lo, hi]` is exactly the prefix `lo/len`.
+pub fn range_prefix_len<T: Int>(lo: T, hi: T) -> Option<u8> {
+    if lo > hi {
+        return None;
+    }
+    let (l, h) = (lo.to_u128(), hi.to_u128());
+    let span = h - l; // size - 1; must be 2^k - 1 with l aligned to 2^k
+    if span & span.wrapping_add(1) != 0 {
+        return None;
+    }
+    if l & span != 0 {
+        return None;
+    }
+    let host = 128 - span.leading_zeros(); // k
+    Some((T::BITS - host) as u8)
+}
+
+/// Minimal ascending decomposition of `[lo, hi]` into prefixes `(addr, len)`.
+pub fn range_to_prefixes<T: Int>(lo: T, hi: T) -> Vec<(T, u8)> {
+    let mut out = Vec::new();
+    if lo > hi {
+        return out;
+    }
+    let h = hi.to_u128();
+    let mut cur = lo.to_u128();
+    loop {
+        // largest k with cur aligned to 2^k and cur + 2^k - 1 <= h
+        let align = if cur == 0 { T::BITS } else { cur.trailing_zeros().min(T::BITS) };
+        let span = h - cur; // remaining - 1
+        // 2^k - 1 <= span  <=>  k <= floor(log2(span + 1)); avoid the +1 overflow
+        let fit = if span == u128::MAX { 128 } else { 127 - (span + 1).leading_zeros() };
+        let k = align.min(fit);
+        out.push((T::from_u128(cur), (T::BITS - k) as u8));
+        let last = cur | low_mask(k);
+        if last >= h {
+            break;
+        }
+        cur = last + 1;
+    }
+    out
+}
+
+//------------ IPv4 in rpki-rs address space -----------------------------------------
+
+const LOW96: u128 = (1u128 << 96) - 1;
+
+/// IPv4 block `[lo, hi]` as the pair of 128-bit values rpki-rs' `Addr` uses.
+pub fn v4_embed(lo: u32, hi: u32) -> (u128, u128) {
+    ((lo as u128) << 96, ((hi as u128) << 96) | LOW96)
+}
+
+pub fn v4_embed_set(s: &ISet<u32>) -> ISet<u128> {
+    ISet::from_ranges(s.ranges().iter().map(|&(lo, hi)| v4_embed(lo, hi)))
+}
+
+/// Inverse of `v4_embed`; `None` if the pair is not aligned to 2^96.
+pub fn v4_project(lo: u128, hi: u128) -> Option<(u32, u32)> {
+    if lo & LOW96 != 0 || hi & LOW96 != LOW96 {
+        return None;
+    }
+    Some(((lo >> 96) as u32, (hi >> 96) as u32))
+}
+
+//------------ self test against a brute-force bitmap (u8) --------------------------------
+
+/// Exhaustive comparison of the model with a 256-bit bitmap over `u8`, for all
+/// pairs of sets built from `n` ranges drawn from `points`. Returns the number
+/// of evaluations or a description of the first disagreement. Called by the
+/// C03 enumeration so that the oracle itself is checked on every run.
+pub fn self_test(points: &[u8]) -> Result<u64, String> {
+    fn bitmap(r: &[(u8, u8)]) -> [bool; 256] {
+        let mut m = [false; 256];
+        for &(lo, hi) in r {
+            if lo <= hi {
+                for x in lo..=hi {
+                    m[x as usize] = true;
+                }
+            }
+        }
+        m
+    }
+    fn of(m: &[bool; 256]) -> Vec<(u8, u8)> {
+        let mut out = Vec::new();
+        let mut x = 0usize;
+        while x < 256 {
+            if m[x] {
+                let lo = x;
+                while x + 1 < 256 && m[x + 1] {
+                    x += 1;
+                }
+                out.push((lo as u8, x as u8));
+            }
+            x += 1;
+        }
+        out
+    }
+    let mut blocks = Vec::new();
+    for &a in points {
+        for &b in points {
+            blocks.push((a, b)); // includes inverted pairs (ignored by from_ranges)
+        }
+    }
+    let mut seqs: Vec<Vec<(u8, u8)>> = vec![vec![]];
+    for &b1 in &blocks {
+        seqs.push(vec![b1]);
+        for &b2 in &blocks {
+            seqs.push(vec![b1, b2]);
+        }
+    }
+    let mut n = 0u64;
+    let sets: Vec<(ISet<u8>, [bool; 256])> = seqs
+        .iter()
+        .map(|s| (ISet::from_ranges(s.iter().copied()), bitmap(s)))
+        .collect();
+    for (s, m) in &sets {
+        n += 1;
+        if s.ranges() != of(m).as_slice() {
+            return Err(format!("from_ranges: {:?} vs bitmap {:?}", s.ranges(), of(m)));
+        }
+        if check_canonical(s.ranges()).is_err() {
+            return Err(format!("from_ranges result not canonical: {:?}", s.ranges()));
+        }
+        let c: Vec<(u8, u8)> = of(&std::array::from_fn(|i| !m[i]));
+        if s.complement().ranges() != c.as_slice() {
+            return Err(format!("complement of {:?}", s.ranges()));
+        }
+        if s.count() != Some(m.iter().filter(|b| **b).count() as u128) {
+            return Err(format!("count of {:?}", s.ranges()));
+        }
+        for x in 0..=255u8 {
+            if s.contains(x) != m[x as usize] {
+                return Err(format!("contains({}) on {:?}", x, s.ranges()));
+            }
+        }
+        for &(lo, hi) in &blocks {
+            if lo > hi {
+                continue;
+            }
+            let all = (lo..=hi).all(|x| m[x as usize]);
+            let any = (lo..=hi).any(|x| m[x as usize]);
+            if s.contains_range(lo, hi) != all || s.intersects_range(lo, hi) != any {
+                return Err(format!("range predicates [{}, {}] on {:?}", lo, hi, s.ranges()));
+            }
+        }
+    }
+    // pair operations on a stride of the sets (all pairs would be ~10^7)
+    let step = (sets.len() / 300).max(1);
+    for (a, ma) in sets.iter().step_by(step) {
+        for (b, mb) in sets.iter().step_by(step) {
+            n += 1;
+            let u = of(&std::array::from_fn(|i| ma[i] || mb[i]));
+            let i = of(&std::array::from_fn(|i| ma[i] && mb[i]));
+            let d = of(&std::array::from_fn(|i| ma[i] && !mb[i]));
+            let sub = (0..256).all(|i| !ma[i] || mb[i]);
+            if a.union(b).ranges() != u.as_slice()
+                || a.intersection(b).ranges() != i.as_slice()
+                || a.difference(b).ranges() != d.as_slice()
+                || a.is_subset(b) != sub
+            {
+                return Err(format!("pair operation on {:?} and {:?}", a.ranges(), b.ranges()));
+            }
+        }
+    }
+    // prefixes over the whole u8 space
+    for lo in 0..=255u8 {
+        for hi in lo..=255u8 {
+            n += 1;
+            let p = range_to_prefixes(lo, hi);
+            let mut next = lo as u32;
+            for &(addr, len) in &p {
+                let (f, l) = prefix_range(addr, len);
+                if f != addr || f as u32 != next {
+                    return Err(format!("range_to_prefixes({}, {}) = {:?}", lo, hi, p));
+                }
+                next = l as u32 + 1;
+            }
+            if next != hi as u32 + 1 {
+                return Err(format!("range_to_prefixes({}, {}) = {:?} does not end at hi", lo, hi, p));
+            }
+            let single = range_prefix_len(lo, hi);
+            if single.is_some() != (p.len() == 1) || (p.len() == 1 && single != Some(p[0].1)) {
+                return Err(format!("range_prefix_len({}, {}) = {:?} vs {:?}", lo, hi, single, p));
+            }
+        }
+    }
+    Ok(n)
+}
